@@ -259,6 +259,7 @@ func (e *Engine) spawn(st *State, fv FuncV, args []Val) {
 
 // offer: first visit of a switch-point instruction: let the scheduler choose, the instruction is re-executed.
 func (e *Engine) offer(st *State, th *Thread) {
+	th.syncN++
 	if len(st.threads) == 1 {
 		return
 	}
